@@ -88,6 +88,21 @@ class World:
                     el = prog.resolve_class(sub.module, be.slice)
                     if isinstance(el, ClassInfo):
                         self.special[el] = sub
+        # … or named by the element class itself: `self.composite_move_type = <specialised composite>` in its constructor
+        # (the declaration `class X(CompositeMove[El])` is a typing detail; a specialised composite may also be derived
+        # from another specialised composite)
+        if family == "move":
+            for el in prog.subclasses(prog.cls("BaseMove"), strict=True):
+                init = el.methods.get("__init__") if hasattr(el, "methods") else None
+                node = getattr(init, "node", init)
+                if node is None:
+                    continue
+                for st in ast.walk(node):
+                    if (isinstance(st, ast.Assign) and len(st.targets) == 1 and isinstance(st.targets[0], ast.Attribute)
+                            and st.targets[0].attr == "composite_move_type" and isinstance(st.value, ast.Name)):
+                        sub = prog.resolve_class(el.module, st.value)
+                        if isinstance(sub, ClassInfo) and sub is not self.comp_base and self.comp_base in prog.mro(sub):
+                            self.special[el] = sub
 
     def _mk(self, cls_name: str, args, kwargs=None):
         ci = self.prog.cls(cls_name)
